@@ -134,7 +134,11 @@ func registerTime(reg func(string, intercept), nop intercept) {
 	mkTimerChan := func(e *Engine) *ChanObj {
 		pkg := e.prog.ImportedPackage("time")
 		tt := pkg.Type("Time").Object().Type()
-		return &ChanObj{Cap: 1, ElemT: tt, Timer: true}
+		n := 1
+		if v, ok := e.cfg.Bounds["ticks"]; ok {
+			n = v
+		}
+		return &ChanObj{Cap: 1, ElemT: tt, Timer: true, Fires: n}
 	}
 	reg("time.After time.Tick", func(e *Engine, fr *frame, a []Value) Value { return mkTimerChan(e) })
 	reg("time.NewTimer time.NewTicker", func(e *Engine, fr *frame, a []Value) Value {
@@ -154,6 +158,9 @@ func registerTime(reg func(string, intercept), nop intercept) {
 			p := a[0].(Ptr)
 			if c, ok := p.B.E[p.I].(*Backing).E[0].(*ChanObj); ok && c != nil {
 				c.Timer = true
+				if c.Fires == 0 {
+					c.Fires = 1
+				}
 			}
 		}
 		return e.tb.True
